@@ -35,7 +35,7 @@ def asyncify(spec: Dict[str, Any], rng, convert_forms: bool) -> Dict[str, Any]:
                 for dk, c in m.get("decos", []):
                     if dk in ("pre", "post") and rng.random() < 0.4:
                         # coroutine conditions cannot be re-computed: they need an explicit error (documented)
-                        if c.get("err", "default") in ("instance", "factory"):
+                        if c.get("err", "default") in ("instance", "factory", "method"):
                             c["form"] = rng.choice(("adef", "aw"))
                     if dk == "snap" and rng.random() < 0.4:
                         c["form"] = rng.choice(("adef", "aw"))
